@@ -29,6 +29,7 @@
 -/
 import OQuPyVerif.Lemmas.GibbsState
 import OQuPyVerif.Lemmas.GibbsCompute
+import OQuPyVerif.Lemmas.GibbsUnique
 import OQuPyVerif.Lemmas.EtaCells
 import OQuPyVerif.Num.QI
 import Mathlib.Algebra.Field.Basic
@@ -410,6 +411,19 @@ theorem matsubara_eta_integrand (E : F → F) (hE0 : E 0 = 1) (hE : ∀ a b, E (
 
 end Thermal
 
+/-! ## 7. merging equal coupling eigenvalues (`TIBaseBackend._unique`) -/
+
+/-- **The projection sums each class.**  `_unique` replaces the state index on the MPS/MPO bonds
+    by the index of its class of equal operator values; the projection it returns must carry
+    EVERY member of a class (the bond of class `c` stands for `∑_{a ∈ c}`).  In the model of
+    `_unique` (compared with the real function on every correspondence case) every state `a` is
+    represented in exactly one class, and two states share a class exactly when their values are
+    equal — so contracting with the projection loses no state and merges no distinct values. -/
+theorem unique_sums_class {α : Type} [DecidableEq α] (vals : List α) (a b : ℕ)
+    (ha : a < vals.length) (hb : b < vals.length) :
+    classCount vals a = 1 ∧ (firstIdx vals a = firstIdx vals b ↔ vals[a] = vals[b]) :=
+  ⟨Gibbs.unique_sums_class vals a ha, firstIdx_eq_iff vals a b ha hb⟩
+
 /-! ## non-vacuity of the hypotheses -/
 
 /-- diagonal propagator -/
@@ -443,6 +457,8 @@ example : (∀ j a b : ℕ, star ((fun _ a b : ℕ => ((a + b : ℕ) : ℚ)) j a
 example : ((2 : ℕ) : ℚ) = (4 : ℕ) / 2 ∧ (4 : ℚ)^(2*2) = 2^(2*4) := by norm_num
 /-- `2 ≤ n` -/
 example : (2 : Int) ≤ 5 := by decide
+/-- repeated values: `[1, 1, -1]` has classes `{0, 1}` and `{2}` -/
+example : uniqIndices [(1 : Int), 1, -1] = [0, 2] ∧ uniqProj [(1 : Int), 1, -1] = [[1, 1, 0], [0, 0, 1]] := by decide
 /-- the thermal-integrand hypotheses hold jointly over ℂ: `E = Complex.exp` is a homomorphism with
     `E 0 = 1`, `i·i = −1`, and `1 − E(−ω/T) ≠ 0` at `ω = T = 1` -/
 example : Complex.exp 0 = 1 ∧ (∀ a b : ℂ, Complex.exp (a + b) = Complex.exp a * Complex.exp b) ∧
